@@ -530,6 +530,15 @@ func (w *Proxy) checkC17TryTimeout(r *peers.ReqRec) {
 	try := time.Duration(p.TryMs) * time.Millisecond
 	n := 1 + p.NumRetries
 	w.Stats["c17_try_timeouts_probed"]++
+	if g := time.Duration(p.GlobalMs) * time.Millisecond; g > 0 && time.Duration(n)*try > g {
+		// the global timeout, counted from the request, cuts the chain of attempts short
+		w.Stats["c17_try_chain_cut_by_global_timeout"]++
+		total := r.Replies[0].At - r.SentAt
+		if total < g-5*time.Millisecond || total > g+1500*time.Millisecond {
+			s.Violate("C17", "global_timeout_not_applied_across_retries", "req#%d: global timeout %v, per-try timeout %v, num_retries=%d, every upstream silent: MOSN gave up %v after the request was sent (%d attempts); the global timeout runs from the request, whatever the retries", r.Idx, g, try, p.NumRetries, total, len(r.Upstream))
+		}
+		return
+	}
 	if len(r.Upstream) < n {
 		s.Violate("C17", "per_try_timeout_not_applied", "req#%d: retry_on with num_retries=%d and a per-try timeout of %v (global timeout: route %dms), every upstream silent: %d attempt(s) reached upstreams instead of %d; the reply came %v after the request was sent", r.Idx, p.NumRetries, try, p.GlobalMs, len(r.Upstream), n, r.Replies[0].At-r.SentAt)
 		return
